@@ -52,6 +52,8 @@ def _is_literal(e, depth=0):
         return len(e.elts) <= 12 and all(_is_literal(x, 1) for x in e.elts)
     if isinstance(e, ast.UnaryOp) and isinstance(e.op, ast.USub):
         return _is_literal(e.operand, 1)
+    if isinstance(e, ast.Dict) and depth == 0:
+        return len(e.keys) <= 12 and all(k is not None and _is_literal(k, 1) for k in e.keys) and all(_is_literal(v, 1) for v in e.values)
     return False
 
 
